@@ -257,6 +257,30 @@ func c03Probes(ref *rm.Schema, level int) []dbx.Txn {
 		rm.Op{Op: "select", Table: "T", Where: whereUUID(tU[2])})
 	add("chain", "delete t1; insert t1 again; select t1", opDelete("T", tU[0]), opInsert("T", tU[0], rm.Row{"s": str("reborn")}), rm.Op{Op: "select", Table: "T", Where: whereUUID(tU[0])})
 	add("chain", "delete all; select all; insert t2; select all", rm.Op{Op: "delete", Table: "T"}, rm.Op{Op: "select", Table: "T"}, opInsert("T", tU[1], rm.Row{"i": one(1)}), rm.Op{Op: "select", Table: "T"})
+	// whole-row updates, as a client writing a model back produces them: every column is named, all but one with the value
+	// the row may already hold (the rows the states are built from)
+	for j, row := range c03StateRows(ref) {
+		for _, cn := range c03Cols(ref) {
+			c := ref.Tables["T"].Cols[cn]
+			if !c.Mutable {
+				continue
+			}
+			uni := c03Universe(c, 0)
+			for ai, v := range uni {
+				if v.Equal(row[cn]) || ai > 2 {
+					continue
+				}
+				full := rm.Row{}
+				for k, x := range row {
+					if ref.Tables["T"].Cols[k].Mutable {
+						full[k] = x.Clone()
+					}
+				}
+				full[cn] = v.Clone()
+				add("update-whole-row."+colShape(c), fmt.Sprintf("update t1 := row%d with %s := #%d; select t1", j, cn, ai), opUpdate("T", tU[0], full), rm.Op{Op: "select", Table: "T", Where: whereUUID(tU[0])})
+			}
+		}
+	}
 	// select with a column list
 	add("select-columns", "select all columns [s,i]", rm.Op{Op: "select", Table: "T", Columns: []string{"s", "i"}})
 	add("select-columns", "select all columns [_uuid]", rm.Op{Op: "select", Table: "T", Columns: []string{"_uuid"}})
